@@ -5,6 +5,13 @@ import json, os
 V = os.path.dirname(os.path.dirname(os.path.abspath(__file__)))
 TB = "pyvc (symbolic executor, numpy shim, mirror loader) and z3/cvc5 are trusted; float64 treated as exact reals; external libraries (numpy kernels beyond the shim's definitional semantics, scipy, qhull, rtree, networkx, shapely) are assumed contracts"
 CLAIMED = {
+    "C03": dict(
+        category="proof",
+        text="The real triangles.cross / area / mass_properties and inertia.transform_inertia are executed on an (N,3,3) array with N symbolic; every clause (volume, mass, centre of mass incl. the |V|<tol.zero branch and the override, inertia = density*J(raw moments, centre) i.e. the parallel-axis step, symmetry, density linearity, rotation and parallel-axis law for frames) is discharged for all N and all real coordinates against a spec generated from the Dirichlet simplex formula.",
+        design_ref="DESIGN.md §4 C03",
+        note=TB + "; (M1) divergence theorem and (M2) Dirichlet formula are mathematical assumptions linking per-triangle flux identities to solid integrals; sums over the symbolic axis are opaque with extensionality+scaling only.",
+        technique="contract-based deductive verification: lambda-array symbolic execution of the unmodified source (unbounded triangle count), VCs discharged by z3/cvc5",
+    ),
     "C19": dict(
         category="proof",
         text="Every obligation generated from the current source of trimesh/transformations.py (rotation_matrix, quaternion_*, euler_* for all 24 conventions, compose/decompose, transform_points, planar/scale/translate helpers) is discharged by z3/cvc5 for all real inputs: orthonormality, det=+1, round trips, representation agreement, fixed points. Fixed-size matrices, so no bound on inputs.",
